@@ -11,7 +11,7 @@ from __future__ import annotations
 import ast
 
 from .. import cxx
-from ..astutil import calls_in, dotted, enclosing_stmt, src, walk_local
+from ..astutil import calls_in, dotted, enclosing_stmt, kwarg, src, walk_local
 from ..loader import AnalysisError
 from ..terms import Evaluator, alts, contains, find, show, strip_sites, walk
 from . import c10
@@ -194,6 +194,41 @@ def r3_key(ctx, docs):
     ctx.check(ok, 'C11.R3', f'{func_label(ck)}|family-key-passed', loc(ck, ck.node), "chunkify passes private['chunker_params'] as the chunker key", 'chunkify does not pass the family chunker key')
 
 
+def r4_repository_chunker(ctx, rule='C11.R3'):
+    """snapshot() cuts its stream with `self.props.chunkify` - the chunker instantiated from the repository config and the
+    key's chunker parameters.  A chunker built inside the command (other lengths for a rate-limited run, a copy of
+    props with another chunker) makes the cut points depend on the invocation, not on (data, key): the same data is
+    chunked differently from one run to the next."""
+    corpus = ctx.corpus
+    snap = corpus.func('repository', 'Repository.snapshot')
+    n = 0
+    for f in [snap] + list(snap.all_nested()):
+        for c in calls_in(f.node):
+            callee = c.func
+            is_chunk_call = (isinstance(callee, ast.Attribute) and callee.attr == 'chunkify') or (isinstance(callee, ast.Name) and 'chunkify' in callee.id)
+            if not is_chunk_call:
+                continue
+            n += 1
+            ctx.analysed(f)
+            ok = dotted(callee) == 'self.props.chunkify'
+            why = f'`{src(callee, 40)}`'
+            if isinstance(callee, ast.Name):
+                defs = [a for g in [snap] + list(snap.all_nested()) for a in walk_local(g.node) if isinstance(a, ast.Assign) and any(isinstance(t, ast.Name) and t.id == callee.id for t in a.targets)]
+                ok = bool(defs) and all(dotted(a.value) == 'self.props.chunkify' for a in defs)
+                why = f'`{callee.id}` is bound to {", ".join(sorted({src(a.value, 50) for a in defs}))}'
+            ctx.check(
+                ok,
+                rule,
+                f'{func_label(f)}|stream-cut-by-the-repository-chunker',
+                loc(f, c),
+                'snapshot: the stream is cut by self.props.chunkify',
+                f'snapshot: the stream is cut by {why}, which is not (always) the chunker of the repository: cut points depend on the options of this run (rate limit, ...) - unchanged data is cut differently and stored again',
+            )
+    ctx.floor(rule, 'chunkify call in snapshot', n)
+    others = [c for f in [snap] + list(snap.all_nested()) for c in calls_in(f.node) if (isinstance(c.func, ast.Call) and (dotted(c.func.func) or '') == 'type') or ((dotted(c.func) or '').endswith('replace') and kwarg(c, 'chunker') is not None)]
+    ctx.check(not others, rule, f'{func_label(snap)}|no-chunker-built-in-the-command', loc(snap, others[0]) if others else loc(snap, snap.node), 'snapshot builds no chunker of its own', f'snapshot builds a chunker of its own (`{src(others[0], 60) if others else ""}`)')
+
+
 def run(ctx):
     docs = c10._docs(ctx)
     # stride from the candidate loop (re-derived, not assumed)
@@ -216,6 +251,12 @@ def run(ctx):
 
     # every holder of a key of one family chunks with the same key: a shared key copies the private section unchanged
     r5_key_material(_RL(ctx, 'C11.R3'))
+    # every file enters the stream once (the padding bookkeeping assumes it), and the stream is cut by the repository's own
+    # chunker - the one built from the stored config and key - whatever the options of the command
+    from .c01 import r1_unique as _uq
+
+    _uq(_RL(ctx, 'C11.R2'))
+    r4_repository_chunker(ctx)
     # the chunker is built from this repository's config on every unlock (the per-user cache holds snapshot objects only)
     from .c18 import r3b_cache_holds_snapshot_objects_only
 
